@@ -17,10 +17,12 @@ import tlc
 DESIGN = {  # tier -> (module, cfg, serves)
     "quick": [("FixPipeline", "MC_FixPipeline_quick.cfg", {"C01", "C02", "C03", "C07", "C18"}),
               ("FixSchedule", "MC_FixSchedule_quick.cfg", {"C03", "C09", "C10", "C19"}),
-              ("ParseEmit", "MC_ParseEmit.cfg", {"C08", "C02"})],
+              ("ParseEmit", "MC_ParseEmit.cfg", {"C08", "C02"}),
+              ("Converge", "MC_Converge.cfg", {"C09", "C10", "C08"})],
     "thorough": [("FixPipeline", "MC_FixPipeline_thorough.cfg", {"C01", "C02", "C03", "C07", "C18"}),
                  ("FixSchedule", "MC_FixSchedule_thorough.cfg", {"C03", "C09", "C10", "C19"}),
-                 ("ParseEmit", "MC_ParseEmit.cfg", {"C08", "C02"})],
+                 ("ParseEmit", "MC_ParseEmit.cfg", {"C08", "C02"}),
+                 ("Converge", "MC_Converge_thorough.cfg", {"C09", "C10", "C08"})],
 }
 MUTANTS = [  # (module, cfg, invariant that must be reported violated)
     ("FixPipeline", "Mutant_FixPipeline_Forward.cfg", "C18_StepIsSumOfHunks"),
@@ -30,6 +32,9 @@ MUTANTS = [  # (module, cfg, invariant that must be reported violated)
     ("FixSchedule", "Mutant_FixSchedule_LinesIgnored.cfg", "Inv_C20_OnlyListed"),
     ("FixSchedule", "Mutant_FixSchedule_OffByOne.cfg", "Inv_C13_FixPhase"),
     ("ParseEmit", "Mutant_ParseEmit_AdjacentWords.cfg", "C08_WriteIsReadIffCanonical"),
+    ("Converge", "Mutant_Converge_NotIdempotent.cfg", "C09_SecondFixChangesNothing"),
+    ("Converge", "Mutant_Converge_NoDiscipline.cfg", "C09_SecondFixChangesNothing"),
+    ("Converge", "Mutant_Converge_NotCanonical.cfg", "C09_SecondFixChangesNothing"),
 ]
 
 FAMILY = ["C01", "C02", "C03", "C07", "C08", "C09", "C10", "C18", "C19"]
@@ -92,6 +97,13 @@ def build_items(tier, seed, wd):
         files = corpus.stratified_sample(cand, 60 if tier == "quick" else 600, seed + 31 + k, always=("/styles/code_examples/",))
         for p in files:
             add(p, ["--fix"] + extra, "sched:" + "_".join(extra).replace("--", ""))
+    # the other documented indent style, given globally; two successive --fix runs (convergence under that style)
+    st_cfg = configs.write_config({"rule": {"global": {"indent_style": "smart_tabs"}}}, os.path.join(wd, "smart_tabs.json"))
+    sweeps["smart_tabs"] = {}
+    cand = [p for p in paths if p.endswith("_test_input.vhd") or "/styles/code_examples/" in p]
+    for p in corpus.stratified_sample(cand, 90 if tier == "quick" else len(cand), seed + 41, always=("/styles/code_examples/",)):
+        tid += 1
+        items.append({"tid": tid, "path": p, "name": corpus.rel(p), "args": ["--fix", "-c", st_cfg], "tag": "smart_tabs", "rounds": 2})
     # generated designs (harness/gendesign.py): a fixed second corpus in which constructs meet that no fixture combines
     import gendesign
 
@@ -116,9 +128,12 @@ def build_items(tier, seed, wd):
     base_inputs = [p for p in paths if p.endswith("_test_input.vhd") or "/styles/code_examples/" in p or "/rule_doc/" in p]
     # comments at every line end / between all lines, case, spacing.  (Line-break and join recipes are used for C05 -
     # classification - where the property names them; see DESIGN.md section 5 for why the fix family leaves them out.)
-    recipes = ["eol1", "eolt1", "own1", "upper", "widen", "tight", "lopl"] if tier == "quick" else ["lopl", "lopr", "eol1", "eolt1", "eol3a", "eol3b", "own1", "own3", "upper", "lower", "flip", "widen", "narrow", "tight", "tight2a", "tight2b"]  # not: break*, join*, breakcmt*
+    recipes = ["eol1", "eolt1", "own1", "upper", "widen", "tight", "lopl", "ownutf8a"] if tier == "quick" else ["lopl", "lopr", "eol1", "eolt1", "eol3a", "eol3b", "own1", "own3", "upper", "lower", "flip", "widen", "narrow", "tight", "tight2a", "tight2b", "ownutf8a", "ownutf8b", "ownutf8c"]  # not: break*, join*, breakcmt*
     for ri, rname in enumerate(recipes):
-        chosen = corpus.stratified_sample(base_inputs, 80 if tier == "quick" else len(base_inputs), seed + 17 * (ri + 1), always=("/styles/code_examples/",))
+        nsel = 80 if tier == "quick" else len(base_inputs)
+        if rname.startswith("ownutf8"):
+            nsel = 30 if tier == "quick" else 300      # non-ASCII text in front of the file (file > 8 KiB, multi-byte characters across block boundaries)
+        chosen = corpus.stratified_sample(base_inputs, nsel, seed + 17 * (ri + 1), always=("/styles/code_examples/",))
         for p in chosen:
             try:
                 with open(p, encoding="utf-8", newline="") as f:
@@ -133,7 +148,7 @@ def build_items(tier, seed, wd):
     return items, sweeps
 
 
-FAMILY_FILES = ['spec/ParseEmit.tla', 'spec/MC_ParseEmit.cfg', 'harness/gendesign.py', 'spec/FixSchedule.tla', 'spec/MC_FixSchedule_quick.cfg', 'spec/MC_FixSchedule_thorough.cfg', 'harness/fixfam.py', 'harness/runfix.py', 'harness/configs.py', 'harness/variants.py', 'harness/vlex.py', 'spec/Edits.tla', 'spec/FixTrace.tla', 'spec/FixTrace.cfg', 'spec/FixPipeline.tla', 'spec/MC_FixPipeline_quick.cfg', 'spec/MC_FixPipeline_thorough.cfg']
+FAMILY_FILES = ['spec/Converge.tla', 'spec/MC_Converge.cfg', 'spec/MC_Converge_thorough.cfg', 'spec/ParseEmit.tla', 'spec/MC_ParseEmit.cfg', 'harness/gendesign.py', 'spec/FixSchedule.tla', 'spec/MC_FixSchedule_quick.cfg', 'spec/MC_FixSchedule_thorough.cfg', 'harness/fixfam.py', 'harness/runfix.py', 'harness/configs.py', 'harness/variants.py', 'harness/vlex.py', 'spec/Edits.tla', 'spec/FixTrace.tla', 'spec/FixTrace.cfg', 'spec/FixPipeline.tla', 'spec/MC_FixPipeline_quick.cfg', 'spec/MC_FixPipeline_thorough.cfg']
 
 
 def collect(tier):
